@@ -305,7 +305,8 @@ int XMLAbstractDoubleFloat::compareValues(const XMLAbstractDoubleFloat* const lV
     //
     else
     {
-        return (-1) * compareSpecial(rValue, manager);
+        int result = compareSpecial(rValue, manager);
+        return (result == INDETERMINATE) ? INDETERMINATE : (-1) * result;
     }
 }
 
